@@ -53,6 +53,8 @@ async def agen(i):
     T.append(i)
     for _k in range(2):
         yield V(i * 10 + _k)
+_q_zz = quiet
+_K_ZZ = 1000
 '''
 
 
@@ -101,7 +103,8 @@ class ProgramGen(object):
                  'globaldef', 'noeol', 'fstring', 'walrus', 'match', 'delvar', 'asyncfor', 'asynccomp', 'decoasync',
                  'docstr_in_def', 'deepnest', 'unicode', 'starunpack', 'yieldgen', 'condexpr', 'withas', 'stdoutwrite',
                  'elifchain', 'commentbody', 'parenwith', 'tripledq', 'mlstr_trailing', 'raises_expected',
-                 'raises_compound', 'markercomment', 'bscomment', 'padded', 'brblank', 'mlstr_wsline']
+                 'raises_compound', 'markercomment', 'bscomment', 'padded', 'brblank', 'mlstr_wsline',
+                 'mlstr_hashclose', 'usepriv']
 
     def __init__(self, rng, kinds=None, allow_async=True):
         self.rng = rng
@@ -310,10 +313,17 @@ class ProgramGen(object):
             # significant trailing blanks inside a string literal
             self.defined_vars.append('s%d' % i)
             return S(["s%d = '''alpha   " % i, "beta %d  " % i, "'''; quiet(%d)" % i], k, i, str_body=(1, 2), is_expr=True)
+        if k == 'usepriv':
+            # names with a leading underscore that the doctest does not bind itself
+            return S(['_q_zz(_K_ZZ + %d)' % i], k, i, is_expr=True)
         if k == 'brblank':
             # an empty line inside brackets (written '...', or '...   ' with blanks only: finding F25)
             self.defined_vars.append('v%d' % i)
             return S(['v%d = [' % i, '', '    emit(%d),' % i, '', '    %d]' % i], k, i)
+        if k == 'mlstr_hashclose':
+            # the line that closes a string literal looks like a comment when read alone (finding F26)
+            self.defined_vars.append('s%d' % i)
+            return S(["s%d = '''echo %d" % (i, i), "# done'''; quiet(%d)" % i], k, i, is_expr=True)
         if k == 'mlstr_wsline':
             # a line of blanks only inside a string literal: the blanks are part of the value
             self.defined_vars.append('s%d' % i)
@@ -445,7 +455,7 @@ class Layout(object):
         """prompt-prefixed lines of one statement, list of (text, label)"""
         rng = self.rng
         style = style or rng.choice(self.styles)
-        if st.kind in ('tripledq', 'mlstr_trailing', 'mlstr_wsline'):
+        if st.kind in ('tripledq', 'mlstr_trailing', 'mlstr_wsline', 'mlstr_hashclose'):
             style = 'ps2'
         out = []
         for li, line in enumerate(st.lines):
